@@ -183,7 +183,9 @@ fn apply_to_states(states: &BTreeSet<St>, ch: &Change) -> BTreeSet<St> {
             St::Any => {
                 match ch.range {
                     None => {
+                        // "any" includes "forgotten", which a full replacement does not undo
                         out.insert(St::Text(ch.text.replace('\r', "")));
+                        out.insert(St::Forgotten);
                     }
                     Some(_) => {
                         out.insert(St::Any);
